@@ -168,8 +168,7 @@ impl SubscriptionActor {
                 let _ = responder.send(result);
             }
             SubscriptionRequest::Delete { responder } => {
-                let result = self.delete().await;
-                let _ = responder.send(result);
+                self.delete(responder);
             }
             SubscriptionRequest::GetStats { responder } => {
                 let result = self.get_stats();
@@ -264,36 +263,54 @@ impl SubscriptionActor {
     }
 
     /// Marks the subscription as deleted. Further requests will be no-ops.
-    async fn delete(&mut self) -> Result<(), DeleteError> {
+    ///
+    /// The rest of the deletion runs in a separate task: the topic may be waiting for
+    /// room in our mailbox while it publishes, so we must keep draining the mailbox
+    /// while we wait for the topic to let go of us.
+    fn delete(&mut self, responder: oneshot::Sender<Result<(), DeleteError>>) {
         if self.deleted {
-            return Ok(());
+            // A deletion is already in progress, respond once it is done.
+            let deleted = self.observer.deleted();
+            tokio::spawn(async move {
+                deleted.await;
+                let _ = responder.send(Ok(()));
+            });
+            return;
         }
 
         self.deleted = true;
-
-        #[cfg(deltio_verif)]
-        crate::verif::point("sub_actor.delete.before_remove").await;
-        // If the topic is still around, remove ourselves from it's list of subscriptions.
-        if let Some(topic) = self.topic.upgrade() {
-            topic
-                .remove_subscription(self.info.name.clone())
-                .await
-                .map_err(|e| match e {
-                    RemoveSubscriptionError::Closed => DeleteError::Closed,
-                })?;
-        }
-
-        #[cfg(deltio_verif)]
-        crate::verif::point("sub_actor.delete.after_remove").await;
-        self.delegate.delete(&self.info.name);
-        self.observer.notify_deleted();
         self.outstanding.clear();
         self.backlog.clear();
 
-        // Unregister the subscription from push.
-        self.push_registry.set(self.info.name.clone(), None);
+        let topic = self.topic.upgrade();
+        let name = self.info.name.clone();
+        let delegate = self.delegate.clone();
+        let observer = Arc::clone(&self.observer);
+        let push_registry = self.push_registry.clone();
+        tokio::spawn(async move {
+            #[cfg(deltio_verif)]
+            crate::verif::point("sub_actor.delete.before_remove").await;
+            // If the topic is still around, remove ourselves from it's list of subscriptions.
+            let result = match topic {
+                Some(topic) => topic
+                    .remove_subscription(name.clone())
+                    .await
+                    .map_err(|e| match e {
+                        RemoveSubscriptionError::Closed => DeleteError::Closed,
+                    }),
+                None => Ok(()),
+            };
 
-        Ok(())
+            #[cfg(deltio_verif)]
+            crate::verif::point("sub_actor.delete.after_remove").await;
+            delegate.delete(&name);
+
+            // Unregister the subscription from push.
+            push_registry.set(name, None);
+            observer.notify_deleted();
+
+            let _ = responder.send(result);
+        });
     }
 
     /// Gets the stats for the subscription.
